@@ -829,3 +829,50 @@ def _mk_c13_e2e(part, parts=4):
 
 for _p in range(4):
     _mk_c13_e2e(_p)
+
+
+# ---------------------------------------------------------------------------
+# valid is monotone: once cleared, no visit of any node sets it again
+
+VALIDATORS = [(OOB, ["C13"], lambda v: None), (AAT, ["C13"], lambda v: None), (SWZ + "::ValidateSwizzleMaskVisitor", ["C13"], lambda v: None),
+              (VF, ["C11"], lambda v: 1), (VN, ["C12"], lambda v: v.Context(v.GetContext())),
+              ("nsl.passes.ValidateExportedFunctions::ValidateExportedFunctionsVisitor", ["C05"], lambda v: None)]
+
+
+def _mk_monotone(path, props, mkctx):
+    name = path.split("::")[1]
+
+    @family(f"V.monotone.{name}", props=props, functions=[path], assumptions=["induction on tree height with opaque children: the hypothesis for a child visit is 'valid is not set back to True'"])
+    def f(R, path=path, mkctx=mkctx):
+        cls = resolve(path)
+        import nsl.types as ty
+        a = ag.A()
+        for label, mk in ag.all_shapes().items():
+            node, _ = mk()
+            kind = type(node).__name__
+            if kind == "ArrayExpression":
+                node = a.ArrayExpression(ag.E("p", ty.ArrayType(ty.Integer(), [4])), ag.E("i", ty.Integer()))
+            if kind == "MemberAccessExpression":
+                node = a.MemberAccessExpression(ag.E("p", ty.VectorType(ty.Float(), 4)), a.PrimaryExpression("xy"))
+            if kind == "Function":
+                args = [a.Argument(ty.Integer(), "p0")]
+                args[0].SetLocation(_loc("p0"))
+                node = a.Function("f", args, ty.Integer(), ag.S("body"), isExported=True)
+            if kind == "VariableDeclaration":
+                node.SetLocation(_loc("v"))
+            vis = cls()
+            vis.SetErrorHandler(_handler())
+            vis.valid = False
+            try:
+                step = ag.visitor_step(vis, node, mkctx(vis) if mkctx is not None else None)
+                ok = vis.valid is False
+                det = f"visiting a {kind} node set valid back to {vis.valid!r} (an earlier error in the module would be forgotten)"
+            except Exception as e:
+                ok, det = False, f"harness: {type(e).__name__}: {e}"
+            R.check(f"V.monotone[{name},{label}]", path, ok, detail=det)
+    f.__doc__ = f"{name}: once `valid` is False, visiting any node class leaves it False (the verdict of the pass is the conjunction over the whole tree)."
+    return f
+
+
+for _v in VALIDATORS:
+    _mk_monotone(*_v)
